@@ -45,4 +45,65 @@ def visible (decls : List Decl) (listed : Option (List String)) : Option (List S
   | none => some pub
   | some names => if names.all (pub.contains ·) then some names else none
 
+/-! ### directory imports
+
+`Binde alle Module aus "d" ein` brings in every module file directly in `d`, `Binde rekursiv alle
+Module aus "d" ein` also those of its sub-directories, in the order `filepath.WalkDir` meets them:
+the entries of a directory in lexical order of their names, a sub-directory walked where it stands. -/
+
+inductive DirEntry where
+  | file (name : String) (module : Nat)
+  | dir (name : String) (entries : List DirEntry)
+
+def DirEntry.name : DirEntry → String
+  | .file n _ => n
+  | .dir n _ => n
+
+/-- insertion sort by name (the directory listing `os.ReadDir` returns is sorted by file name) -/
+def insertEntry (e : DirEntry) : List DirEntry → List DirEntry
+  | [] => [e]
+  | f :: r => if e.name < f.name then e :: f :: r else f :: insertEntry e r
+def sortEntries : List DirEntry → List DirEntry
+  | [] => []
+  | e :: r => insertEntry e (sortEntries r)
+
+mutual
+/-- every listing sorted, also those of the sub-directories -/
+def sortDeep : List DirEntry → List DirEntry
+  | [] => []
+  | e :: r => insertEntry (sortEntryDeep e) (sortDeep r)
+def sortEntryDeep : DirEntry → DirEntry
+  | .file n m => .file n m
+  | .dir n es => .dir n (sortDeep es)
+end
+
+mutual
+/-- the modules a directory import of these (already sorted) entries brings in, in order -/
+def walkSorted (recursive : Bool) : List DirEntry → List Nat
+  | [] => []
+  | e :: r => walkEntry recursive e ++ walkSorted recursive r
+def walkEntry (recursive : Bool) : DirEntry → List Nat
+  | .file _ m => [m]
+  | .dir _ es => if recursive then walkSorted recursive es else []
+end
+
+mutual
+/-- all module files below the entries (for the statement of completeness) -/
+def allModules : List DirEntry → List Nat
+  | [] => []
+  | e :: r => modulesOf e ++ allModules r
+def modulesOf : DirEntry → List Nat
+  | .file _ m => [m]
+  | .dir _ es => allModules es
+end
+
+/-- what a directory import brings in: the listings are sorted, then walked -/
+def dirImport (recursive : Bool) (entries : List DirEntry) : List Nat := walkSorted recursive (sortDeep entries)
+
+/-- the module files directly in the directory -/
+def topModules : List DirEntry → List Nat
+  | [] => []
+  | .file _ m :: r => m :: topModules r
+  | .dir _ _ :: r => topModules r
+
 end DDP.Modules
